@@ -84,6 +84,12 @@ type world struct {
 	gapEvt  bool
 	// maintained: the last action ended with the pool's maintenance pass
 	maintained bool
+	// maintainedAccts: the accounts that pass covered with its per-account part (nil = all:
+	// head change, SetGasPrice); the pool-wide part of a pass always covers everything
+	maintainedAccts map[common.Address]bool
+	// sureLocals: accounts the pool certainly treats as local (an accepted AddLocal that was
+	// not a same-nonce replacement: TxPool.add returns before marking the account otherwise)
+	sureLocals map[common.Address]bool
 }
 
 type TB interface {
@@ -102,7 +108,7 @@ func (w *world) announce(t TB, head *types.Block) {
 		case r := <-w.pc.stateAt:
 			if r == head.Root() {
 				w.pool.Stats() // blocks until the reset releases the pool lock
-				w.maintained = true
+				w.maintained, w.maintainedAccts = true, nil
 				return
 			}
 		case <-deadline:
@@ -128,7 +134,7 @@ func newWorld(t TB, nc gen.NamedConfig, cfg core.TxPoolConfig) *world {
 		runtime.Gosched()
 		time.Sleep(time.Millisecond)
 	}
-	return &world{nc: nc, b: b, pc: pc, pool: pool, cfg: cfg, keys: gen.Keys[:4], locals: map[common.Address]bool{}, offered: map[common.Hash]*types.Transaction{}, labels: map[string]bool{}, maintained: true}
+	return &world{nc: nc, b: b, pc: pc, pool: pool, cfg: cfg, keys: gen.Keys[:4], locals: map[common.Address]bool{}, offered: map[common.Hash]*types.Transaction{}, labels: map[string]bool{}, maintained: true, sureLocals: map[common.Address]bool{}}
 }
 
 func (w *world) close() {
@@ -224,7 +230,9 @@ func (w *world) check(t TB, step string) {
 	for addr, txs := range queued {
 		if !w.locals[addr] {
 			nonLocalQueued += len(txs)
-			if uint64(len(txs)) > w.cfg.AccountQueue {
+			// (a submission's pass caps only the submitting accounts; a transaction evicted from a full
+			// pool meanwhile sends its successors back to another account's queue uncapped until the next full pass)
+			if uint64(len(txs)) > w.cfg.AccountQueue && (w.maintainedAccts == nil || w.maintainedAccts[addr]) {
 				t.Fatalf("%s: non-local sender %x has %d queued transactions, limit %d", step, addr[:4], len(txs), w.cfg.AccountQueue)
 			}
 		}
@@ -314,6 +322,9 @@ func (w *world) add(t *rapid.T, tx *types.Transaction, local bool) {
 		err = w.pool.AddLocal(tx)
 		if err == nil {
 			w.locals[from] = true
+			if !sameNonce {
+				w.sureLocals[from] = true
+			}
 		}
 	} else {
 		err = w.pool.AddRemote(tx)
@@ -323,7 +334,7 @@ func (w *world) add(t *rapid.T, tx *types.Transaction, local bool) {
 	// same-nonce transaction (TxPool.addTx skips promoteExecutables then): a full pool that
 	// evicted to make room for a replacement may hold demoted transactions above the queue
 	// limit until its next pass, while pending+queue stays within GlobalSlots+GlobalQueue
-	w.maintained = err == nil && !sameNonce
+	w.maintained, w.maintainedAccts = err == nil && !sameNonce, map[common.Address]bool{from: true}
 	// under tiny limits a full pool evicts its cheapest transactions before inserting, so a
 	// predecessor can vanish by eviction rather than replacement: judged with ample limits only
 	if old != nil && old.Hash() != tx.Hash() && w.cfg.GlobalSlots > 1000 {
@@ -403,11 +414,21 @@ func TestPoolInvariant(t *testing.T) {
 					txs = append(txs, tx)
 					w.offered[tx.Hash()] = tx
 				}
+				// which of them cannot be a same-nonce replacement (only those end in a maintenance pass)
+				fresh := make([]bool, len(txs))
+				seenNonce := map[string]bool{}
+				for i, tx := range txs {
+					from := w.sender(tx)
+					k := fmt.Sprintf("%x/%d", from, tx.Nonce())
+					fresh[i] = !seenNonce[k] && existing(w.pool, from, tx.Nonce()) == nil
+					seenNonce[k] = true
+				}
 				errs := w.pool.AddRemotes(txs)
-				w.maintained = false
-				for _, e := range errs {
-					if e == nil {
+				w.maintained, w.maintainedAccts = false, map[common.Address]bool{}
+				for i, e := range errs {
+					if e == nil && fresh[i] {
 						w.maintained = true
+						w.maintainedAccts[w.sender(txs[i])] = true
 					}
 				}
 				w.actions = append(w.actions, fmt.Sprintf("addRemotes(%d)", len(txs)))
@@ -448,7 +469,7 @@ func TestPoolInvariant(t *testing.T) {
 			"setGasPrice": func(t *rapid.T) {
 				p := big.NewInt(int64(rapid.SampledFrom([]int{1, 2, 6, 11}).Draw(t, "minprice")))
 				w.pool.SetGasPrice(p)
-				w.maintained = true
+				w.maintained, w.maintainedAccts = true, nil
 				w.actions = append(w.actions, fmt.Sprintf("setGasPrice(%v)", p))
 			},
 			"mine": func(t *rapid.T) {
@@ -628,7 +649,7 @@ func TestPoolInvariant(t *testing.T) {
 					}
 					from := w.sender(tx)
 					valid := tx.Nonce() >= st.GetNonce(from) && tx.Cost().Cmp(st.GetBalance(from)) <= 0 && tx.Gas() <= parent.GasLimit() &&
-						(w.locals[from] || tx.GasPrice().Cmp(w.pool.GasPrice()) >= 0)
+						(w.sureLocals[from] || tx.GasPrice().Cmp(w.pool.GasPrice()) >= 0)
 					if !valid || poolFullBefore || w.saturated() {
 						ev.Label("reorg-reinjection-skipped")
 						continue
